@@ -1,6 +1,9 @@
 #!/usr/bin/env python3
 """regenerates MANIFEST.json from the table below (run by hand)"""
-import json
+import json, sys
+sys.path.insert(0, '/verif/vlib')
+import kani_lane as K
+KP = sorted(K._prop_harnesses())
 KANI_NOTE = " Kani harnesses labelled bounded(...) in the evidence are bounded stand-ins (period bound stated per harness), never counted as unbounded proofs; complete harnesses are loop-free over all f64/usize values."
 IDEAL = ("Numeric content is proved for exact real arithmetic on finite f64 values (prelude axioms T1-T5: floats never trap, ideal + - * / sqrt abs max, "
          "extended-real order, literals, usize->f64 exact, slice length bound); rounding, overflow and underflow are idealised away, so the tau(t) tolerances in the "
@@ -36,7 +39,7 @@ for pid, (cat, text, ref, tech) in sorted(P.items()):
         'level_claimed': {'category': cat, 'text': text, 'design_ref': 'DESIGN.md section ' + ref},
         'level_note': (IDEAL + KANI_NOTE) if pid not in ('C16', 'C19') else ('Kani 0.68/CBMC 6.11 trusted; harness states are built fieldwise from kani::any()' if pid == 'C16' else 'rustc trait solver trusted; the assertion list in vlib/traits_lane.py mirrors the documented bounds'),
         'engine': 'verus-weave' if pid not in ('C16', 'C19') else ('kani' if pid == 'C16' else 'rustc-traits'),
-        'technique': tech,
+        'technique': tech + (' + Kani harnesses (complete where loop-free; differential-vs-textbook and op-sequence harnesses bounded to period <= 3)' if pid in KP and pid not in ('C16',) else ''),
     })
 NA = [
  {"property_id": "C06", "reason": "decided by serde_derive-generated and bincode code, outside Verus (cannot load the crates) and Kani (20-minute probe on the smallest case did not terminate); no contract within reach expresses it"},
@@ -46,7 +49,7 @@ M = {
  'version': 1,
  'setup_cmd': 'true',
  'hooks': {'guard': 'none', 'enable': 'no hooks: nothing is added to /repo; every check weaves /repo/src into a scratch file and verifies that', 'baseline_off_cmd': 'cd /repo && cargo test --workspace --no-fail-fast --offline', 'source_commits': [], 'add_only': True},
- 'engines': [{'name': 'kani', 'path': '/verif/vlib/kani_lane.py', 'serves_properties': ['C01', 'C02', 'C04', 'C05', 'C08', 'C09', 'C10', 'C11', 'C12', 'C16', 'C17'], 'kind_free_text': 'Kani 0.68 / CBMC harnesses (kani/*.rs) appended as #[cfg(kani)] child modules to a scratch copy of /repo'},
+ 'engines': [{'name': 'kani', 'path': '/verif/vlib/kani_lane.py', 'serves_properties': KP, 'kind_free_text': 'Kani 0.68 / CBMC harnesses (kani/*.rs) appended as #[cfg(kani)] child modules to a scratch copy of /repo'},
    {'name': 'rustc-traits', 'path': '/verif/vlib/traits_lane.py', 'serves_properties': ['C19'], 'kind_free_text': 'generated trait-bound assertion program, cargo check'},
    {'name': 'verus-weave', 'path': '/verif/check.py', 'serves_properties': sorted(x for x in P if x not in ('C16', 'C19')), 'kind_free_text': 'contract-based deductive verification: /repo/src woven with sidecar contracts (contracts/*.vspec) into one Verus file, verified by Verus 0.2026.09.13 + Z3; polynomial side lemmas by z3/cvc5'}],
  'checks': checks,
